@@ -92,7 +92,7 @@
    are for the NATURAL lengths of the path (calculate_length without a
    requested length, zero seed).  Not covered: a curve cut or extended to a
    requested length (its last length is the requested one, the last vertex
-   the adjusted one: needs C16_adjust_end_ieee_bound chained in), the osu!
+   the adjusted one: needs C16_adjusted_end_ieee_bound chained in), the osu!
    Catmull surplus seed (lengths larger than the geometry; chord <= arc holds
    a fortiori but is not stated), paths with a non-degenerate segment shorter
    than 2^-10 or an exact length above 2^40 (2^1000 for the theorems with
@@ -1087,3 +1087,28 @@ Theorem C19_global_lipschitz_ieee_position_at :
     (edist (R2 qa) (R2 qb) <= G + 4 * E19max M)%R.
 Proof. exact global_lipschitz_position_at_ieee. Qed.
 Print Assumptions C19_global_lipschitz_ieee_position_at.
+
+(* the hypotheses of the theorems through the search hold on the polyline
+   (0,0) (3,4) (8,16) (exact length 18 <= 2^40, coordinates <= 16): on the
+   lengths calculate_length computes, position_at (lengths[1] / dist) is the
+   vertex (3, 4) up to 6.8e-6 per coordinate (exactly (3, 4) when run), and
+   position_at 0 / position_at 1 -- (0, 0) and (8, 16) when run -- are at most
+   18.0001 apart *)
+Example C19_search_theorems_example :
+  ((poly_len (map R2 ex_path) <= Raux.bpow Zaux.radix2 40)%R /\ coords_le 16 ex_path) /\
+  (forall lj, nth_error (natural ex_path D.zero) 1 = Some lj ->
+     exists q, position_at ex_path (natural ex_path D.zero) (D.div lj (Curve.dist (natural ex_path D.zero))) = Done q /\
+       (Rabs (B2R (px q) - 3) <= 6.8 / 1000000)%R /\ (Rabs (B2R (py q) - 4) <= 6.8 / 1000000)%R) /\
+  (exists qa qb, position_at ex_path (natural ex_path D.zero) (D.of_Z 0) = Done qa /\
+     position_at ex_path (natural ex_path D.zero) (D.of_Z 1) = Done qb /\
+     (edist (R2 qa) (R2 qb) <= 18 + 1 / 10000)%R) /\
+  (match nth_error (natural ex_path D.zero) 1 with
+   | Some lj => dump_out dump_pos (position_at ex_path (natural ex_path D.zero) (D.div lj (Curve.dist (natural ex_path D.zero))))
+   | None => [] end) = [0%Z; S.bits (S.of_Z 3); S.bits (S.of_Z 4)] /\
+  dump_out dump_pos (position_at ex_path (natural ex_path D.zero) (D.of_Z 0)) = [0%Z; S.bits (S.of_Z 0); S.bits (S.of_Z 0)] /\
+  dump_out dump_pos (position_at ex_path (natural ex_path D.zero) (D.of_Z 1)) = [0%Z; S.bits (S.of_Z 8); S.bits (S.of_Z 16)].
+Proof.
+  split; [exact ex_path_hyps40|]. split; [exact (proj1 ex_search_theorems)|]. split; [exact (proj2 ex_search_theorems)|].
+  split; [vm_compute; reflexivity|]. split; vm_compute; reflexivity.
+Qed.
+Print Assumptions C19_search_theorems_example.
